@@ -132,6 +132,7 @@ func unsupported(format string, args ...interface{}) {
 
 // Exec is the symbolic executor for one function under contract (or one lemma).
 type Exec struct {
+	errAlias  map[types.Object]types.Object // target variable of errors.As -> the error variable it was extracted from
 	specDepth int // > 0 while a function body is executed on behalf of contract text
 	U     *Universe
 	Pkg   *packages.Package
@@ -198,13 +199,13 @@ func (x *Exec) addObl(kind, name string, st *State, goal *Term, where string) {
 		x.trivial++
 		return
 	}
-	if goal.Op == "and" && (kind == "post" || kind == "inv" || kind == "lemma" || kind == "assert") && len(goal.Args) <= 400 {
+	if goal.Op == "and" && (kind == "post" || kind == "inv" || kind == "lemma" || kind == "assert" || (kind == "pre" && len(goal.Args) > 8)) && len(goal.Args) <= 1000 {
 		for i, g := range goal.Args {
 			x.addObl(kind, fmt.Sprintf("%s.c%d", name, i+1), st, g, where)
 		}
 		return
 	}
-	if goal.Op == "=>" && goal.Args[1].Op == "and" && (kind == "post" || kind == "inv" || kind == "lemma" || kind == "assert") && len(goal.Args[1].Args) <= 400 {
+	if goal.Op == "=>" && goal.Args[1].Op == "and" && (kind == "post" || kind == "inv" || kind == "lemma" || kind == "assert") && len(goal.Args[1].Args) <= 1000 {
 		for i, g := range goal.Args[1].Args {
 			x.addObl(kind, fmt.Sprintf("%s.c%d", name, i+1), st, Implies(goal.Args[0], g), where)
 		}
